@@ -1222,7 +1222,9 @@ impl<'m, 'a> Driver<'m, 'a> {
             match rng.below(3) {
                 1 if e.imports_id.is_some() => 1,
                 // ModuleImports::set_fn_name takes the FunctionID of an imported function: ids of the parsed module
-                2 if !e.added && id < self.g.n_imp_funcs => 2,
+                // (an import that was replaced by a local and converted back is a new import at the end of the import list:
+                //  it is no longer "the id-th function import", so only untouched original imports qualify)
+                2 if !e.added && id < self.g.n_imp_funcs && e.ident.starts_with("I:env.i") => 2,
                 _ => 0,
             }
         };
